@@ -230,7 +230,7 @@ func (m *smap) iter() *smapIter {
 		panic(engineErr{"range over havoc map"})
 	}
 	order := append([]*mentry(nil), m.entries...)
-	if m.anyOrd && len(order) > 1 {
+	if (m.anyOrd || R.cfg.AllMapOrders) && len(order) > 1 && R.initPkg == nil {
 		rest := order
 		var perm []*mentry
 		for len(rest) > 1 {
